@@ -946,8 +946,9 @@ func (v *Validator) unsafeOptionalAccessError(env *requestEnv, t cedarType, attr
 		// Context attribute - include path and action
 		fullPath := string(attr)
 		if varName != "" && varName != "context" {
-			// nested path like context.session.token
-			fullPath = string(varName)[len("context."):] + "." + string(attr)
+			// nested path like context.session.token (the receiver may also hang off another variable)
+			path, _ := strings.CutPrefix(string(varName), "context.")
+			fullPath = path + "." + string(attr)
 		}
 		return fmt.Errorf("unable to guarantee safety of access to optional attribute `%s` in context for %s", fullPath, env.actionUID)
 	}
